@@ -129,10 +129,16 @@ def main(chk):
             spec_check(chk, cfg, hist, outs, states)
     chk.sample({"config": {"reset_weight": "1/2", "max_episodes": cfgs[0][1], "threshold": cfgs[0][2]},
                 "history": [[l, str(r)] for l, r in recs[5][1][50]], "model_output": mres[5][50]})
+    # TD7 integration: real train_td7 runs in deferred-training mode on the scripted environment
+    import c06
+    c06.td7_checkpoint_mode(chk, rng, chk.tier == "quick", prefix="C15", check_release=True)
     return chk.finish(
         rule=f"all histories of 1..{maxlen} episodes over lengths {{1,2,5}} x returns {{-2,0,3}} ({exhaustive_n} histories, enumerated "
              f"exhaustively) plus {n_rand} random histories of 4-13 episodes, each under 18 configurations (reset weight {{1/2,1}} x window "
-             f"{{1,2,3}} x threshold {{0,4,9}}); distinct = distinct (configuration, history) with >= 2 episodes",
+             f"{{1,2,3}} x threshold {{0,4,9}}); distinct = distinct (configuration, history) with >= 2 episodes; real train_td7 runs in deferred-"
+             f"training mode on scripted environments: training epochs executed per iteration = epochs released by the assessment of that iteration, "
+             f"checkpoint modules (actor and fixed embedding) change only when the assessment decided an update and then equal the acting policy",
         assumptions=["returns are dyadic so float64 arithmetic (min, multiplication by the reset weight) is exact",
-                     "train_td7 integration (counting _train_step executions) is covered by the C11/C01 train runs"],
+                     "train_td7 integration: training epochs are counted through the logger's record_epoch('embedding') calls, the checkpoint modules are reached by "
+                     "recording the DeterministicSALEPolicy objects train_td7 builds (harness/trainrun.py)"],
         extra={"exhaustive_part": f"lengths x returns, up to {maxlen} episodes: {exhaustive_n} histories x 18 configs"})
